@@ -50,6 +50,24 @@ theorem c15_relex_guard_needed :
     gluedUnsafe (.k .LParen) (.k .Star) .spaced = true ∧ gluedUnsafe (.k .Slash) (.k .Slash) .compact = true ∧
     gluedUnsafe (.k .Colon) (.k .Eq) .compact = true := by decide
 
+/-- The re-lex guard cannot be restricted to lines that contain `(`, `.` or `..`, nor to the compact style:
+in SPACED style the glue rule writes `NOT #stop` as `NOT#stop` (a typed-literal prefix), `x #y` as `x#y`,
+`16 # FF` as `16#FF` and `T# -5s` / `T# 5` as `T#-5s` / `T#5` — seven unsafe class pairs without any of those three
+tokens; and the list below is complete: every other pair that is glued unsafely in spaced style has a `(`, `.`
+or `..` on one side. -/
+theorem c15_relex_guard_needed_without_paren_or_dot :
+    (∀ p ∈ [((Cls.k .Kw), (Cls.k .Hash)), (.k .Ident, .k .Hash), (.k .IntLiteral, .k .Hash),
+            (.temporal, .k .Plus), (.temporal, .k .Minus), (.temporal, .k .IntLiteral), (.temporal, .k .RealLiteral)],
+        gluedUnsafe p.1 p.2 .spaced = true) ∧
+    (∀ a ∈ Cls.all, ∀ b ∈ Cls.all,
+      (gluedUnsafe a b .spaced && !excludedKind a.kind && !excludedKind b.kind) = true →
+        (a.kind == .LParen || a.kind == .Dot || a.kind == .DotDot ||
+         b.kind == .LParen || b.kind == .Dot || b.kind == .DotDot ||
+         [((Cls.k .Kw), (Cls.k .Hash)), (.k .Ident, .k .Hash), (.k .IntLiteral, .k .Hash),
+          (.temporal, .k .Plus), (.temporal, .k .Minus), (.temporal, .k .IntLiteral),
+          (.temporal, .k .RealLiteral)].contains (a, b)) = true) := by
+  decide +kernel
+
 /-! ## Clause 1, one line re-emitted by `format_line_tokens` -/
 
 /-- The glued text of a token list without a recorded pair lexes to its tokens: on such lines the re-lex
@@ -429,6 +447,45 @@ theorem c15_wrap_idempotent_counterexample :
           lineOf "" []],
         crlf := false, endsNl := true } =
       some (txt "foo(aaaaaaaa,\nbbbbbbbbb,\nccccccccc);\nx := 1;\n") := by
+  decide +kernel
+
+/-! ## The assignment alignment pass (`align_assignment_ops`) -/
+
+/-- What holds of `align_assignment_ops` for EVERY list of lines: it inserts white space only — no character
+of any line is lost, changed or reordered.  `_partial`: the clause "same tokens" needs more, namely that the
+white space falls between two tokens, and the text search `find_assignment_op` does not guarantee that
+(`c15_align_assign_counterexample`; decidable guard `assignOpIsToken`, reported by the check as
+`assign-op-in-token`). -/
+theorem c15_align_assign_partial (ls : List OutLine) :
+    (alignAssignOps ls).map (fun x => nonWs x.text) = ls.map (fun x => nonWs x.text) :=
+  nonWs_alignAssignOps_go _ _
+
+/-- non-vacuity / the pass at work: `x:=1;` is padded to the operator column of `longer:=2;` -/
+example :
+    (alignAssignOps [{ text := txt "x:=1;", inVar := false, skipAlign := false },
+                     { text := txt "longer:=2;", inVar := false, skipAlign := false }]).map (·.text) =
+      [txt "x     :=1;", txt "longer:=2;"] := by decide +kernel
+
+/-- Clause 1 ("same tokens") is FALSE of the LSP formatter in compact style with assignment alignment (the
+default): `a <= > b;` is re-emitted as `a<=>b;` (which the lexer reads back as `<=` `>`, so the re-lex guard
+accepts it), then `find_assignment_op` finds the TEXT "=>" at byte 2 — across the token boundary — and the
+alignment pass pads there: `<=` `>` becomes `<` `=>`.  Known finding C15-align-assign-op-in-token (broken
+programs only: the pairs are `?=`/`<=`/`>=` followed by `>`/`>=`). -/
+theorem c15_align_assign_counterexample :
+    formatDocument { cfgDefault with style := .compact }
+      { lines := [
+          lineOf "longer_name := 1;" [tk "Ident" .Ident "longer_name", tk "Assign" .Assign ":=",
+                                      tk "IntLiteral" .IntLiteral "1", tk "Semicolon" .Semicolon ";"],
+          lineOf "a <= > b;" [tk "Ident" .Ident "a", tk "LtEq" .LtEq "<=", tk "Gt" .Gt ">", tk "Ident" .Ident "b",
+                              tk "Semicolon" .Semicolon ";"],
+          lineOf "" []],
+        crlf := false, endsNl := true } =
+      some (txt "longer_name:=1;\na<         =>b;\n") ∧
+    assignOpIsToken .preserve [tk "Ident" .Ident "a", tk "LtEq" .LtEq "<=", tk "Gt" .Gt ">", tk "Ident" .Ident "b",
+                               tk "Semicolon" .Semicolon ";"] (txt "a<=>b;") = false ∧
+    assignOpIsToken .preserve [tk "Ident" .Ident "longer_name", tk "Assign" .Assign ":=",
+                               tk "IntLiteral" .IntLiteral "1", tk "Semicolon" .Semicolon ";"]
+      (txt "longer_name:=1;") = true := by
   decide +kernel
 
 /-- `textDocument/formatting` answers with no edit when the text is already formatted, and otherwise with
